@@ -67,6 +67,9 @@ pub struct Case {
     /// statement speaks about *returning*)
     #[serde(default)]
     pub panic_at: Option<Fault>,
+    /// some evaluation values are NaN / +-infinity
+    #[serde(default)]
+    pub special: bool,
 }
 
 #[derive(Clone, Debug, Default, Serialize, Deserialize)]
@@ -303,6 +306,16 @@ impl<'a, I: TargetDim> PredictInplace<ArrayView2<'a, f64>, Array<f64, I>> for Si
 
 fn eval_value(case: &Case, fold: usize, model: usize, c: usize) -> f64 {
     let r = mix3(case.val_seed, (fold * 64 + model) as u64, c as u64);
+    if case.special && !case.dyadic {
+        // "any evaluation closure": a fold score may be NaN or infinite, and the mean of the
+        // fold scores is then whatever IEEE arithmetic makes of it
+        match r % 11 {
+            0 => return f64::NAN,
+            1 => return f64::INFINITY,
+            2 => return f64::NEG_INFINITY,
+            _ => {}
+        }
+    }
     if case.dyadic {
         (r % 64) as f64 / 8.0
     } else {
@@ -425,7 +438,11 @@ fn check_scores(case: &Case, got: &[f64], ncols: usize, out: &mut CaseOut) {
                 acc / case.k as f64
             };
             let g = got[m * ncols + c];
-            let ok = if case.dyadic {
+            let ok = if expect.is_nan() || g.is_nan() {
+                expect.is_nan() && g.is_nan()
+            } else if expect.is_infinite() || g.is_infinite() {
+                g == expect
+            } else if case.dyadic {
                 g == expect
             } else {
                 let tol = if case.f32acc { 1e-4 } else { 1e-10 };
@@ -826,12 +843,12 @@ pub fn plan(tier: &str, seed: u64) -> Plan {
             // fold(): every layout, single/multi target
             for layout in [Layout::Owned, Layout::ViewContig, Layout::ViewStrided, Layout::OwnedColMajor, Layout::ViewTransposed] {
                 for nt in [0usize, 2] {
-                    cases.push(Case { api: Api::Fold, n, k, nf: 1 + (n + k) % 3, nt, layout, models: 1, faults: vec![], f32acc: false, dyadic: true, val_seed: 0, panic_at: None });
+                    cases.push(Case { api: Api::Fold, n, k, nf: 1 + (n + k) % 3, nt, layout, models: 1, faults: vec![], f32acc: false, dyadic: true, val_seed: 0, panic_at: None, special: false });
                 }
             }
             for layout in [Layout::Owned, Layout::ViewContig] {
                 for nt in [0usize, 1, 3] {
-                    cases.push(Case { api: Api::IterFold, n, k, nf: 1 + (n * k) % 4, nt, layout, models: 1, faults: vec![], f32acc: false, dyadic: true, val_seed: 0, panic_at: None });
+                    cases.push(Case { api: Api::IterFold, n, k, nf: 1 + (n * k) % 4, nt, layout, models: 1, faults: vec![], f32acc: false, dyadic: true, val_seed: 0, panic_at: None, special: false });
                 }
             }
             // cross_validate: fault plans — all singles everywhere; all pairs on the small grid
@@ -857,6 +874,7 @@ pub fn plan(tier: &str, seed: u64) -> Plan {
                         dyadic: h & 256 != 0,
                         val_seed: h,
                         panic_at: None,
+                        special: h & 512 != 0 && h & 256 == 0,
                     });
                 }
             }
@@ -902,6 +920,7 @@ pub fn plan(tier: &str, seed: u64) -> Plan {
             dyadic: r.chance(0.5),
             val_seed: r.next_u64(),
             panic_at: None,
+            special: r.chance(0.2),
         });
     }
     // panic probes (observation only)
@@ -921,6 +940,7 @@ pub fn plan(tier: &str, seed: u64) -> Plan {
                     dyadic: true,
                     val_seed: 1,
                     panic_at: Some(Fault { fold: k - 1, model: 0, stage }),
+                    special: false,
                 });
             }
         }
@@ -986,6 +1006,11 @@ pub fn shrink_candidates(c: &Case) -> Vec<Case> {
     if !c.dyadic {
         let mut d = c.clone();
         d.dyadic = true;
+        push(&mut v, d);
+    }
+    if c.special {
+        let mut d = c.clone();
+        d.special = false;
         push(&mut v, d);
     }
     v
